@@ -354,6 +354,12 @@ static bool convert_pp_int(Token *tok) {
     base = 8;
   }
 
+  // strtoul accepts a "0x" prefix of its own; we have consumed ours,
+  // so a second one ("0x0x1") must not be skipped.
+  if ((base == 16 && !strncasecmp(p, "0x", 2)) ||
+      (base == 2 && !strncasecmp(p, "0b", 2)))
+    return false;
+
   int64_t val = strtoul(p, &p, base);
 
   // Read U, L or LL suffixes.
